@@ -16,6 +16,36 @@ def panics : List (Option Bytes) → Bool
   | none :: _ => true
   | some _ :: rest => panics rest
 
+theorem panics_false_of_no_none : ∀ (l : List (Option Bytes)), (∀ x ∈ l, x ≠ none) → panics l = false
+  | [], _ => rfl
+  | none :: _, h => absurd rfl (h none (List.mem_cons_self ..))
+  | some _ :: rest, h => panics_false_of_no_none rest (fun x hx => h x (List.mem_cons_of_mem _ hx))
+
+theorem panics_true_of_none : ∀ (l : List (Option Bytes)), none ∈ l → panics l = true
+  | [], h => by cases h
+  | none :: _, _ => rfl
+  | some _ :: rest, h => panics_true_of_none rest (by
+      rcases List.mem_cons.1 h with h | h
+      · cases h
+      · exact h)
+
+theorem consumed_of_no_none : ∀ (l : List (Option Bytes)), (∀ x ∈ l, x ≠ none) → consumed l = l.filterMap id
+  | [], _ => rfl
+  | none :: _, h => absurd rfl (h none (List.mem_cons_self ..))
+  | some s :: rest, h => by
+    simp only [consumed, List.filterMap_cons, id]
+    rw [consumed_of_no_none rest (fun x hx => h x (List.mem_cons_of_mem _ hx))]
+
+theorem consumed_map_some (l : List Bytes) : consumed (l.map some) = l := by
+  induction l with
+  | nil => rfl
+  | cons a l ih => simp [consumed, ih]
+
+theorem panics_map_some (l : List Bytes) : panics (l.map some) = false := by
+  induction l with
+  | nil => rfl
+  | cons a l ih => simpa [panics] using ih
+
 /-- `for item in iter { self.push_str(item) }` — what `String::extend` does: every item consumed
 before a panic is appended, in order; a refused allocation stops *between* items -/
 theorem pushLoop_text {ocf base st} (rf : Refuse) : ∀ (items : List (Option Bytes)) (hp : Heap) (r : Handle) (t : Bytes),
